@@ -41,7 +41,7 @@ pub fn property() -> Property {
             SubCheck { name: "add_output", kind: Kind::Tape { quick: 120_000, thorough: 1_500_000, max_len: 192 }, run: add_output_case },
             SubCheck { name: "mint_output", kind: Kind::Tape { quick: 40_000, thorough: 600_000, max_len: 160 }, run: mint_output_case },
             // (3) built transactions of the scenario engine (props/builder.rs::c07_built_case)
-            SubCheck { name: "built_tx", kind: Kind::Tape { quick: 40_000, thorough: 2_000_000, max_len: 500 }, run: super::builder::c07_built_case },
+            SubCheck { name: "built_tx", kind: Kind::Tape { quick: 300_000, thorough: 8_000_000, max_len: 500 }, run: super::builder::c07_built_case },
             // (4)
             SubCheck { name: "output_builder", kind: Kind::Tape { quick: 250_000, thorough: 4_000_000, max_len: 192 }, run: output_builder_case },
             SubCheck {
